@@ -298,7 +298,7 @@ fn run(s: &Sess) -> Outcome {
             if let Some(tx) = senders.lock().unwrap().get(k) {
                 return Some(tx.clone());
             }
-            if t0.elapsed() > Duration::from_millis(3000) {
+            if t0.elapsed() > Duration::from_millis(10000) {
                 return None;
             }
             std::thread::sleep(Duration::from_millis(1));
@@ -366,7 +366,7 @@ fn run(s: &Sess) -> Outcome {
                 while V::trace_snapshot().iter().filter(|e| e.1 == "ev" && e.2 == 0).count() < sent_nonhb && t1.elapsed() < Duration::from_millis(4000) {
                     std::thread::sleep(Duration::from_millis(2));
                 }
-                let _ = wait_quiescent(V::trace_len(), Duration::from_millis(6000));
+                let _ = wait_quiescent(V::trace_len(), Duration::from_millis(20000));
             }
             Act::SelAll => { let _ = tx.send((Key::Null, Event::EvActSelectAll)); sent_nonhb += 1; }
             Act::TogAll => { let _ = tx.send((Key::Null, Event::EvActToggleAll)); sent_nonhb += 1; }
@@ -391,7 +391,7 @@ fn run(s: &Sess) -> Outcome {
     let mut stalled = false;
     if s.select1 || s.exit0 {
         // give the loop the chance to decide on its own
-        while t0.elapsed() < Duration::from_millis(5000) {
+        while t0.elapsed() < Duration::from_millis(15000) {
             if th.is_finished() {
                 auto = true;
                 break;
@@ -406,7 +406,12 @@ fn run(s: &Sess) -> Outcome {
         }
     }
     if !auto {
-        if !wait_quiescent(mark.saturating_sub(1), Duration::from_millis(6000)) {
+        // every event sent has been picked up by the loop
+        let t1 = Instant::now();
+        while !th.is_finished() && V::trace_snapshot().iter().filter(|e| e.1 == "ev" && e.2 == 0).count() < sent_nonhb && t1.elapsed() < Duration::from_millis(10000) {
+            std::thread::sleep(Duration::from_millis(2));
+        }
+        if !wait_quiescent(mark.saturating_sub(1), Duration::from_millis(20000)) {
             stalled = true;
         }
         if !s.set_ops { let _ = tx.send((Key::Null, Event::EvActSelectAll)); }
@@ -925,7 +930,7 @@ fn run_case(seed: u64, id: u64, focus: &str, spec: Option<&String>, out: &mut Ve
             }
         }
         out.push(format!("{}\tdist\tselected-at-end={}", id, sel.len().min(8)));
-        if o.stalled { bad = Some("no quiescent state within 6 s of the last input".to_string()); }
+        if o.stalled { bad = Some("no quiescent state within 20 s of the last input".to_string()); }
         else if !sel.is_empty() {
             let want: Vec<String> = sel.iter().map(|k| s.items[*k].clone()).collect();
             if o.output != want { bad = Some(format!("after the select-all / toggle-all / deselect-all history and re-filtering the accepted items are {:?}, the selected set is {:?}", o.output, want)); }
@@ -944,7 +949,7 @@ fn run_case(seed: u64, id: u64, focus: &str, spec: Option<&String>, out: &mut Ve
         }
     }
     if bad.is_none() && !o.auto && !s.set_ops {
-        if o.stalled { bad = Some("no quiescent state within 6 s of the last input (heartbeats stopped or never settle)".to_string()); }
+        if o.stalled { bad = Some("no quiescent state within 20 s of the last input (heartbeats stopped or never settle)".to_string()); }
         else {
             let stale_ok = s.no_clear_if_empty && exp.is_empty() && o.run_start > 0;
             if o.output != exp && !stale_ok {
